@@ -216,6 +216,11 @@ def never_compare(io, never_line):
     bstart, bend, rest = never_line.split(" ", 2)
     bstart, bend = int(bstart), int(bend)
     other = storefam.parse_obs(rest)
+    # premise of the comparison: the create..delete block really ended with a committed delete (a delete refused
+    # e.g. because the entity references itself under a restrict wiring leaves the id in place - then the suffix
+    # legitimately differs from the run where the id never existed)
+    if bend - 1 >= len(io) or bend < 1 or not io[bend - 1]["commit"] or any(r != "ok" for r in io[bend - 1]["results"]):
+        return None
     mine = io[bend:]
     if len(other) != len(mine):
         return bend, "the two runs have a different number of transactions (%d vs %d)" % (len(mine), len(other))
